@@ -306,6 +306,14 @@ func TestVerifC30(t *testing.T) {
 			c30History(t, rep, &hc)
 			return
 		}
+		if rp.API == "concurrent" {
+			var cc c30CCase
+			if _, err := vh.LoadReplay(&cc); err != nil {
+				t.Fatalf("HARNESS-ERROR C30: replay: %v", err)
+			}
+			c30Concurrent(t, rep, &cc)
+			return
+		}
 		if rp.API != "resolve" && rp.API != "unwrap" {
 			t.Skipf("replay belongs to another part of C30 (api=%q)", rp.API)
 		}
@@ -435,5 +443,6 @@ func TestVerifC30(t *testing.T) {
 	}
 	if vh.ReplayFile() == "" {
 		c30History(t, rep, nil)
+		c30Concurrent(t, rep, nil)
 	}
 }
